@@ -186,6 +186,12 @@ HAND_CASES = [
     # durations in minutes and hours, also below 0.1 of the unit: 1.2 s, 3.6 s, 3 s, 0.9 s
     ("Base: s\nWait: 0.02min\nMark: a\nWait: 0.001h\nMark: b\nWait: 0.05 min\nMark: c\nWait: 0.00025h\nMark: d", "0.1", 120,
      [(30, "Pause"), (36, "Unpause")]),
+    # a second run of the method after Stop + Start / after Restart: every scope and block clock starts at 0 again
+    ("Base: s\nMark: A\n3 Mark: B\nBlock: X\n    1 Mark: C\n    End block\nMark: D", "0.1", 120, [(30, "Stop"), (34, "Start")]),
+    ("Base: s\nMark: A\n2 Mark: B\nWatch: T0 > 0\n    1 Mark: w\n3 Mark: D", "0.1", 120, [(40, "Restart")]),
+    # overlapping Hold and Pause: the clocks stand still until both are released
+    ("Base: s\nMark: A\n3 Mark: B\nBlock: X\n    1.5 Mark: C\n    End block", "0.1", 90,
+     [(10, "Hold"), (12, "Pause"), (18, "Unpause"), (26, "Unhold"), (45, "Pause"), (47, "Hold"), (52, "Unhold"), (60, "Unpause")]),
     # volume / column-volume base units (totalizer 0.25 L per tick, column volume 2 L): outside and inside blocks
     ("Base: L\n1 Mark: a\nBlock: B\n    Mark: p\n    0.75 Mark: x\n    End block\n0.5 Mark: y\nBase: mL\n6000 Mark: w", "0.1", 60, []),
     ("Base: CV\n0.5 Mark: a\nBlock: C\n    Mark: p\n    0.5 Mark: z\n    Watch: T0 > 0\n        0.25 Mark: w\n    1.5 End block\n2 Mark: e", "0.1", 80,
@@ -226,7 +232,7 @@ def run_oracle(ctx: Check, cases: list[dict]) -> None:
         if any(a[0] == "user" for acts in c["plan"] for a in acts):
             ctx.count("oracle:cases_with_pause_or_hold")
         for k, v in (c.get("stats") or {}).items():
-            if k.startswith("rerun_"):
+            if k.startswith("rerun_") or k in ("stop_start", "restart", "overlapping_hold_pause", "volume_method"):
                 ctx.count("oracle:cases_" + k, v)
 
 
